@@ -1,8 +1,9 @@
-/- Driver ops for BinPack.  Ops: bin_pack.{state,step,judge,instance}.
+/- Driver ops for BinPack.  Ops: bin_pack.{state,step,judge,instance,bounds,boundscheck}.
    cfg = {"obs_num_ems": nat, "normalize": bool, "dense": bool, "f32": bool, "tol": rat,
           "container_dims": [x, y, z]} -/
 import JumanjiModel.Bridge.Json
 import JumanjiModel.Env.BinPack.Model
+import JumanjiModel.Env.BinPack.Bounds
 import JumanjiModel.Prim.Float
 open Lean Jb
 
@@ -181,7 +182,34 @@ def opInstance : Op := fun j => do
                          ("solution_feasible", jBool (decide (Feasible sol)))]))
   | .error _ => pure (jObj base)
 
+def jBounds (t : Jm.OB.Table) : Json :=
+  jObj (t.map fun e => (e.1, jObj [("lo", match e.2.1 with | some r => jRat r | none => Json.null),
+                                   ("hi", match e.2.2 with | some r => jRat r | none => Json.null)]))
+
+def getDims (c : Conf) : Except String Dims :=
+  match c.dims with
+  | [x, y, z] => pure ⟨x, y, z⟩
+  | _ => throw "container_dims must be [x, y, z]"
+
+/-- {"cfg": {...}} → {leaf path: {"lo": rat|null, "hi": rat|null}}: the proved observation bounds (C01) -/
+def opBounds : Op := fun j => do
+  let c ← getConf j
+  pure (jBounds (obsBounds c.cfg (← getDims c)))
+
+/-- {"cfg", "state", "action"?, "draw"?} → the hypotheses of `Props.C01.binpack_step_obs_in_bounds` evaluated on an
+    implementation state / transition: {"inv": BoundsInv, "draw_all": validDrawAll | null (no action or draw given)} -/
+def opBoundsCheck : Op := fun j => do
+  let c ← getConf j
+  let dm ← getDims c
+  let s ← getState (← field j "state")
+  let dr ← match ← fOpt j "draw" getDraw with
+    | some d => do
+      let (e, i) ← getAction j
+      pure (jBool (decide (validDrawAll s e i d)))
+    | none => pure Json.null
+  pure (jObj [("inv", jBool (decide (BoundsInv dm s))), ("draw_all", dr)])
+
 def ops : List (String × Op) :=
   [("bin_pack.step", opStep), ("bin_pack.state", opState), ("bin_pack.judge", opJudge),
-   ("bin_pack.instance", opInstance)]
+   ("bin_pack.instance", opInstance), ("bin_pack.bounds", opBounds), ("bin_pack.boundscheck", opBoundsCheck)]
 end Jb.BinPack
